@@ -10,10 +10,10 @@ use crate::fub::{self, StepCfg};
 macro_rules! harness {
     ($name:ident, $body:expr) => {
         #[cfg_attr(kani, kani::proof)]
-        #[cfg_attr(all(kani, futures_buffered_verif_model), kani::stub(core::task::Waker::wake_by_ref, crate::gh::stub_wake_by_ref))]
-        #[cfg_attr(all(kani, futures_buffered_verif_model), kani::stub(core::task::Waker::wake, crate::gh::stub_wake))]
-        #[cfg_attr(all(kani, futures_buffered_verif_model), kani::stub(<core::task::Waker as core::clone::Clone>::clone, crate::gh::stub_clone))]
-        #[cfg_attr(all(kani, futures_buffered_verif_model), kani::stub(<core::task::Waker as core::ops::Drop>::drop, crate::gh::stub_drop))]
+        #[cfg_attr(kani, kani::stub(core::task::Waker::wake_by_ref, crate::gh::stub_wake_by_ref))]
+        #[cfg_attr(kani, kani::stub(core::task::Waker::wake, crate::gh::stub_wake))]
+        #[cfg_attr(kani, kani::stub(<core::task::Waker as core::clone::Clone>::clone, crate::gh::stub_clone))]
+        #[cfg_attr(kani, kani::stub(<core::task::Waker as core::ops::Drop>::drop, crate::gh::stub_drop))]
         #[cfg_attr(kani, kani::stub(alloc::alloc::alloc, crate::gh::alloc_stubs::alloc))]
         #[cfg_attr(kani, kani::stub(alloc::alloc::realloc_nonnull, crate::gh::alloc_stubs::realloc_nonnull))]
         pub fn $name() {
@@ -40,7 +40,9 @@ harness!(fub_poll_c2_quiet, fub::step_poll(&StepCfg { cap: 2, selfwakes: 0, mon:
 // racing wakes at the WakerList operation boundaries, stale handles, enqueues in flight: C01
 harness!(fub_poll_c2_env, fub::step_poll(&StepCfg { cap: 2, selfwakes: 0, mon: fub::M_ALL, env_budget: 1, inflight_ok: true, quiet: false, handles: true }));
 // per-poll budget of 61 child polls: one child that may wake itself on every poll
-harness!(fub_poll_budget, fub::budget());
+harness!(fub_poll_budget, fub::budget(100));
+harness!(fub_poll_budget_61, fub::budget(61));
+harness!(fub_poll_budget_3, fub::budget(3));
 harness!(fub_push_c2, fub::step_push(&StepCfg { cap: 2, selfwakes: 0, mon: fub::M_ALL, env_budget: 0, inflight_ok: false, quiet: false, handles: false }));
 harness!(fub_push_c2_inflight, fub::step_push(&StepCfg { cap: 2, selfwakes: 0, mon: fub::M_ALL, env_budget: 0, inflight_ok: true, quiet: false, handles: false }));
 harness!(fub_push_c0, fub::step_push(&StepCfg { cap: 0, selfwakes: 0, mon: fub::M_ALL, env_budget: 0, inflight_ok: false, quiet: false, handles: false }));
@@ -85,6 +87,26 @@ harness!(ad_tbo_n2, ad::step_buffered_ordered(&ACfg { n: 2, selfwakes: 0, parked
 harness!(ja_poll_n2, ja::step_join_all(&JCfg { n: 2, selfwakes: 0 }));
 harness!(tja_poll_n2, ja::step_try_join_all(&JCfg { n: 2, selfwakes: 0 }));
 
+// Layer W: the real waker_list.rs (run with layer "real"); on the model build the same shapes check the model
+harness!(wm_lifecycle_c2, crate::wl::lifecycle(2));
+harness!(wl_fifo_c2, crate::wl::fifo(2));
+harness!(wl_shape0_c1, crate::wl::shape(1, 0));
+harness!(wl_shape0_c2, crate::wl::shape(2, 0));
+harness!(wl_shape0_c3, crate::wl::shape(3, 0));
+harness!(wl_shape1_c2, crate::wl::shape(2, 1));
+harness!(wl_shape2_c2, crate::wl::shape(2, 2));
+harness!(wl_shape2_c3, crate::wl::shape(3, 2));
+// the same shapes on the reference model (refinement: the model answers like the real list)
+harness!(wm_fifo_c2, crate::wl::fifo(2));
+harness!(wm_shape0_c2, crate::wl::shape(2, 0));
+harness!(wm_shape1_c2, crate::wl::shape(2, 1));
+harness!(wm_shape2_c2, crate::wl::shape(2, 2));
+#[cfg(all(kani, not(futures_buffered_verif_model)))]
+#[kani::proof]
+pub fn wl_vt_mirror() {
+    crate::gh::vt_mirror_selftest()
+}
+
 /// name -> function, for the native replayer
 pub fn table() -> &'static [(&'static str, fn())] {
     &[
@@ -94,10 +116,24 @@ pub fn table() -> &'static [(&'static str, fn())] {
         ("fub_poll_c2_quiet", fub_poll_c2_quiet),
         ("fub_poll_c2_env", fub_poll_c2_env),
         ("fub_poll_budget", fub_poll_budget),
+        ("fub_poll_budget_61", fub_poll_budget_61),
+        ("fub_poll_budget_3", fub_poll_budget_3),
         ("fub_push_c2", fub_push_c2),
         ("fub_push_c0", fub_push_c0),
         ("fub_wake_c2", fub_wake_c2),
         ("fub_drop_c2", fub_drop_c2),
+        ("wm_lifecycle_c2", wm_lifecycle_c2),
+        ("wl_fifo_c2", wl_fifo_c2),
+        ("wl_shape0_c1", wl_shape0_c1),
+        ("wl_shape0_c2", wl_shape0_c2),
+        ("wl_shape0_c3", wl_shape0_c3),
+        ("wl_shape1_c2", wl_shape1_c2),
+        ("wl_shape2_c2", wl_shape2_c2),
+        ("wl_shape2_c3", wl_shape2_c3),
+        ("wm_fifo_c2", wm_fifo_c2),
+        ("wm_shape0_c2", wm_shape0_c2),
+        ("wm_shape1_c2", wm_shape1_c2),
+        ("wm_shape2_c2", wm_shape2_c2),
         ("fu_poll_12", fu_poll_12),
         ("fu_poll_12_quiet", fu_poll_12_quiet),
         ("fu_poll_2", fu_poll_2),
